@@ -108,7 +108,7 @@ impl Default for BasicOpts {
             reset_rate: 100,
             leave_rate: 0,
             server_plans: true,
-            wl: WorkloadCfg { unordered: 200, stop: 100, resp_max: 20_000, check_data: true, strict_api: true },
+            wl: WorkloadCfg { unordered: 200, stop: 100, resp_max: 20_000, check_data: true, strict_api: true, lazy: 0 },
             allow_drop: true,
             allow_dup: true,
             allow_reorder: true,
@@ -542,6 +542,8 @@ impl Scenario for Basic {
             if let Some(dg) = self.dg.as_mut() {
                 dg.on_wake(w, tag - crate::dgram::TAG_DGRAM);
             }
+        } else if tag >= crate::app::TAG_LAZY && tag < crate::app::TAG_LAZY + (1 << 40) {
+            self.wl.on_lazy_wake(w, tag - crate::app::TAG_LAZY);
         } else if tag == TAG_FAULTS_ON {
             w.net.faults = true;
             w.logf(|| "--- fault phase begins ---".to_string());
